@@ -57,6 +57,12 @@ func checkSID(c sidCase) []vf.Finding {
 	if got == dec || strings.EqualFold(got, hx) {
 		return nil
 	}
+	// The statement speaks of well-formed binary SIDs: a buffer that goes on after the 8+4n bytes the
+	// count announces is a SID followed by something else, and a parser may read the SID at its head or
+	// decline the buffer (""). What it may not do is return any other string.
+	if len(c.Trailing) > 0 && got == "" {
+		return nil
+	}
 	kind := "string-differs-from-ms-dtyp"
 	if strings.Contains(got, "--") {
 		kind = "double-dash"
